@@ -269,6 +269,7 @@ type sched struct {
 	nextObj        ObjID
 	objs           []objState
 	addrObj        map[unsafe.Pointer]ObjID
+	weakObj        map[uintptr]ObjID
 	arrs           []arrSpan
 	lastArr        int
 	closedCh       map[unsafe.Pointer]bool
@@ -370,6 +371,27 @@ func ArrObj(b []byte) (ObjID, bool) {
 	id := NewObj("")
 	s.arrs = append(s.arrs, arrSpan{base: base, lo: lo, hi: hi, id: id})
 	return id, true
+}
+
+// WeakAtomics: atomic variables are keyed by address WITHOUT keeping their
+// object alive, so that the collector can find objects unreachable (scenarios
+// with modelled finalizers). If an address is reused within the execution two
+// atomics share one object: more dependence and more happens-before edges
+// than there are, never fewer interleavings explored and never a false race
+// (atomics are not race-checked).
+var WeakAtomics = false
+
+// AtomicObj maps the address of an atomic variable to an object id.
+func AtomicObj(p unsafe.Pointer) ObjID {
+	if !WeakAtomics {
+		return AddrObj(p)
+	}
+	if id, ok := s.weakObj[uintptr(p)]; ok {
+		return id
+	}
+	id := NewObj("")
+	s.weakObj[uintptr(p)] = id
+	return id
 }
 
 // CurThread returns the running thread's id.
@@ -717,6 +739,7 @@ func (ex *Explorer) runOnce(body func()) *Execution {
 		running:  true,
 		epoch:    s.epoch + 1,
 		addrObj:  make(map[unsafe.Pointer]ObjID),
+		weakObj:  make(map[uintptr]ObjID),
 		closedCh: make(map[unsafe.Pointer]bool),
 		finished: make(chan struct{}, 1),
 		ex:       ex,
